@@ -124,6 +124,22 @@ Proof.
 Qed.
 Print Assumptions C06_apsp_roundtrip.
 
+(* every layer that decoding produces is in the C06 domain: decode, serialize, decode is the identity on decodable input *)
+Theorem C06_apsp_decoded_wf : forall old data l tr, bytes_ok data -> ap_decode_into old data = (l, Ok tt, tr) -> ap_wf l.
+Proof.
+  intros old data l tr Hb. unfold ap_decode_into, ap_rd64. cbv zeta. destruct (zlen data <? 40) eqn:Hn; [discriminate|].
+  assert (B : forall k, 0 <= nth k data 0 < 256) by (intros k; apply bytes_ok_nth; exact Hb).
+  rewrite !cd_idx_ok by lia. rewrite !ml_rd32_ok by lia. cbn [ml_bind obind]. rewrite !cd_slc_ok by lia. cbn [ml_bind]. intros X.
+  match type of X with (?t, _, _) = _ => assert (El : l = t) by congruence end. subst l. clear X.
+  assert (R32 : forall i, 0 <= (nth (Z.to_nat i) data 0 * 256 + nth (Z.to_nat (i + 1)) data 0) * 65536 + (nth (Z.to_nat (i + 2)) data 0 * 256 + nth (Z.to_nat (i + 2 + 1)) data 0) < 4294967296).
+  { intros i. pose proof (B (Z.to_nat i)). pose proof (B (Z.to_nat (i + 1))). pose proof (B (Z.to_nat (i + 2))). pose proof (B (Z.to_nat (i + 2 + 1))). lia. }
+  unfold ap_wf. cbn [ap_nh ap_hel ap_co ap_sdv ap_spi ap_iv ap_tok ap_vk ap_src ap_dst].
+  pose proof (R32 4). pose proof (R32 8). pose proof (R32 (8 + 4)). pose proof (R32 16). pose proof (R32 20). pose proof (R32 24). pose proof (R32 (24 + 4)).
+  pose proof (R32 32). pose proof (R32 (32 + 4)).
+  repeat split; try apply B; try lia.
+Qed.
+Print Assumptions C06_apsp_decoded_wf.
+
 Example Lapsp_nonvacuous :
   let l := mkAp [] [] 4 1 0 3 66000 18446744073709551615 5 6 4294967296 9 in
   ap_wf l /\ fst (ap_serialize l [69] false false [170]) =
